@@ -154,9 +154,21 @@ func Check(env *core.Env, rep *core.Report) *core.Result {
 		_ = o.Start()
 		w := o.Stdout()
 		var all []byte
+		// every other case delivers its chunks the way os/exec's copy loop does: through one
+		// buffer that is re-used (here: overwritten) as soon as Write has returned
+		reuse := make([]byte, 0, 256)
 		for _, ch := range chunks {
-			if _, err := w.Write(ch); err != nil {
+			data := ch
+			if i%2 == 1 {
+				data = append(reuse[:0], ch...)
+			}
+			if _, err := w.Write(data); err != nil {
 				add("prefixed:write-error", err.Error(), c)
+			}
+			if i%2 == 1 {
+				for k := range reuse[:cap(reuse)] {
+					reuse[:cap(reuse)][k] = '#'
+				}
 			}
 			all = append(all, ch...)
 		}
@@ -259,6 +271,7 @@ func Check(env *core.Env, rep *core.Report) *core.Result {
 				_ = o.Start()
 				out := o.Stdout()
 				b := streams[w]
+				var buf []byte
 				for len(b) > 0 {
 					n := 1 + r.Intn(40)
 					if r.Intn(6) == 0 {
@@ -267,7 +280,11 @@ func Check(env *core.Env, rep *core.Report) *core.Result {
 					if n > len(b) {
 						n = len(b)
 					}
-					_, _ = out.Write(b[:n])
+					buf = append(buf[:0], b[:n]...)
+					_, _ = out.Write(buf)
+					for k := range buf {
+						buf[k] = '#' // the producer re-uses its buffer
+					}
 					b = b[n:]
 				}
 				_ = o.Finish()
